@@ -341,6 +341,7 @@ def po3(facts, rep):
     total = 0
     from .po_known import KNOWN
     bodies = [facts.bodies[k] for k in sorted(reach) if facts.bodies[k].path.startswith(('io::fasta', '<io::fasta'))]
+    present = set(facts.bodies)
     for b, nb, ia, obs in eng_po.scan(facts, bodies, KNOWN):
         rep.analysed_body(b)
         for o in obs:
@@ -350,6 +351,9 @@ def po3(facts, rep):
                 rep.ok(rule, key, o['where'], 'interval / difference analysis')
             elif key in AUDIT:
                 rep.audited(rule, key, o['where'], AUDIT[key])
+            elif eng_po.orphan_match(key, AUDIT, present):
+                k0 = eng_po.orphan_match(key, AUDIT, present)
+                rep.audited(rule, key, o['where'], 'arithmetic of the removed function %s, now written in its caller: %s' % (k0.split('|')[0], AUDIT[k0]))
             elif o.get('ty', '').startswith('u') and eng_po.implied_partial_sum(key, AUDIT):
                 k0 = eng_po.implied_partial_sum(key, AUDIT)
                 rep.audited(rule, key, o['where'], 'partial sum of unsigned terms of the audited sum `%s`: %s' % (k0.split('|')[2], AUDIT[k0]))
